@@ -2,7 +2,7 @@
 import ast
 import re
 
-from sa import pyflow
+from sa import pattern as P, pyflow
 from sa.loader import AnalysisError, enclosing_function
 
 EXPLANATION = (
@@ -314,6 +314,37 @@ def rule_r4(repo, run):
               and isinstance(n.value, ast.Name)]
     run.check(R, "reader.store-key", len(stores) == 1,
               "exactly one place must store the collected block under its name", loc)
+    # dotted names: the cursor descends level by level from itself, over every component but the
+    # last, starting at (and returning to) the caller's dictionary; the block is stored through it
+    outp = r.args.args[1].arg if len(r.args.args) > 1 else None
+    desc = P.find(r, """
+for MV_S in MV_L[:-1]:
+    MV_T = MV_T.setdefault(MV_S, {})
+""")
+    ok = False
+    why = "no loop `for s in parts[:-1]: cur = cur.setdefault(s, {})` (cursor must descend from itself)"
+    if len(desc) == 1 and outp:
+        env = desc[0][1]
+        T, L = env["T"], env["L"]
+        split = P.has(r, "%s = MV_TAG.split('.')" % L)
+        last = P.find(r, "MV_K = %s[-1]" % L)
+        store = P.find(r, "%s[MV_K] = MV_V" % T)
+        resets = P.count(r, "%s = %s" % (T, outp))
+        probs = []
+        if not split:
+            probs.append("components must come from <tag>.split('.')")
+        if not last or not store or last[0][1]["K"] != store[0][1]["K"]:
+            probs.append("the block must be stored under the last component through the cursor")
+        if resets < 2:
+            probs.append("the cursor must start at the caller's dictionary and return to it after each block "
+                         "(%d assignments `%s = %s`)" % (resets, T, outp))
+        other = [sm.seg(n) for n in ast.walk(r) if isinstance(n, ast.Assign) and len(n.targets) == 1
+                 and pyflow.is_name(n.targets[0], T) and not P.match(P.parse("%s = %s" % (T, outp))[1], n, {})
+                 and not P.match(P.parse("%s = %s.setdefault(MV_S, {})" % (T, T))[1], n, {})]
+        if other:
+            probs.append("unexpected cursor assignment %s" % other)
+        ok, why = not probs, "; ".join(probs)
+    run.check(R, "reader.descent", ok, why, loc, sample=dict(descent=[e for _, e in desc]))
     # mismatched begin/end raises
     raises = [n for n in ast.walk(r) if isinstance(n, ast.Raise)]
     run.check(R, "reader.mismatch-raises", len(raises) >= 1, "mismatched begin/end tags must raise", loc)
